@@ -437,12 +437,33 @@ fn phase_a_cases(rng: &mut Rng) -> Vec<DbCase> {
         ("day-boundary-offset", (86_400 + 600, -720, 0, 0), (86_400 - 600, 840, 0, 0)),
         ("same-notation-control", (7200, 0, 0, 0), (3600, 0, 0, 0)),
     ];
-    for (class, newest, older) in ts_pairs {
+    // every pair once alone and once in a database in which ANOTHER product's only build carries a timestamp that is not
+    // an RFC 3339 date-time: what is newest for one product must not depend on the other products in the file
+    let mut pair_cases: Vec<(&str, (i64, i32, u8, usize), (i64, i32, u8, usize), Option<&str>)> = Vec::new();
+    for (i, (class, newest, older)) in ts_pairs.iter().enumerate() {
+        pair_cases.push((class, *newest, *older, None));
+        pair_cases.push((class, *newest, *older, Some(TS_GARBAGE[i % TS_GARBAGE.len()].0)));
+    }
+    for (class, newest, older, foreign) in pair_cases {
         let mut builds = Vec::new();
         let base = BASE_EPOCH + rng.range(0, 400_000_000) as i64 / 86_400 * 86_400;
         let s = gen_stamp(rng, base, 1000, 0);
         builds.push(benign_build(rng, id, "control_prod", s));
         id += 1;
+        if let Some(garbage) = foreign {
+            let s1 = Stamp { text: String::new(), instant_ns: i128::from(base) * 1_000_000_000 };
+            let other_name = format!("other_{}", token(rng, 3, 5));
+            let mut other = benign_build(rng, id, &other_name, s1);
+            id += 1;
+            set_field(rng, &mut other, "build_time", garbage);
+            if rng.bool() {
+                builds.insert(0, other);
+            } else {
+                builds.push(other);
+            }
+        }
+        let class_owned = if foreign.is_some() { format!("{class}+another-product-with-a-non-rfc3339-timestamp") } else { class.to_string() };
+        let class = class_owned.as_str();
         let subject = format!("subj_{}", token(rng, 3, 5));
         let mk = |(delta, off, zulu, frac): (i64, i32, u8, usize)| {
             let nanos = if frac > 0 { 500_000_000 } else { 0 };
